@@ -1,0 +1,53 @@
+//go:build verif
+
+package swap
+
+import (
+	"sync"
+	"time"
+)
+
+// With the `verif` build tag the verification harness may shorten the three
+// real-time waits of the swap package so that retry and timeout paths run
+// deterministically and fast. Zero values mean "leave unchanged".
+var (
+	verifTimingMu    sync.Mutex
+	verifPayRetry    time.Duration
+	verifPayInterval time.Duration
+	verifRetransmit  time.Duration
+	verifNoBackoff   bool
+)
+
+// VerifSetTiming configures the overrides.
+func VerifSetTiming(payRetry, payInterval, retransmit time.Duration, noBackoff bool) {
+	verifTimingMu.Lock()
+	defer verifTimingMu.Unlock()
+	verifPayRetry, verifPayInterval, verifRetransmit, verifNoBackoff = payRetry, payInterval, retransmit, noBackoff
+}
+
+func verifPayTiming(retry, interval time.Duration) (time.Duration, time.Duration) {
+	verifTimingMu.Lock()
+	defer verifTimingMu.Unlock()
+	if verifPayRetry != 0 {
+		retry = verifPayRetry
+	}
+	if verifPayInterval != 0 {
+		interval = verifPayInterval
+	}
+	return retry, interval
+}
+
+func verifRetransmitInterval(d time.Duration) time.Duration {
+	verifTimingMu.Lock()
+	defer verifTimingMu.Unlock()
+	if verifRetransmit != 0 {
+		return verifRetransmit
+	}
+	return d
+}
+
+func verifSkipBackoff() bool {
+	verifTimingMu.Lock()
+	defer verifTimingMu.Unlock()
+	return verifNoBackoff
+}
